@@ -140,3 +140,45 @@ Proof.
   - destruct H3 as [->|H3]; [left; reflexivity|right; exact H3].
   - intros x [<-|Hx]; auto.
 Qed.
+
+(* ---- string-join ---- *)
+Lemma fold_join_prefix : forall (sep : str) r (a b : str),
+  fold_left (fun acc t => acc ++ sep ++ t) r (a ++ b) = a ++ fold_left (fun acc t => acc ++ sep ++ t) r b.
+Proof.
+  intros sep r. induction r as [|t r IH]; intros a b; cbn [fold_left]; [reflexivity|].
+  rewrite <- app_assoc. apply IH.
+Qed.
+Lemma py_join_is_string_join : forall sep l, py_join sep l = string_join l sep.
+Proof.
+  intros sep l. destruct l as [|s r]; [reflexivity|]. unfold py_join. revert s.
+  induction r as [|t r IH]; intros s; [reflexivity|].
+  cbn [fold_left]. rewrite fold_join_prefix.
+  change (string_join (s :: t :: r) sep) with (s ++ sep ++ string_join (t :: r) sep).
+  rewrite <- (IH t). rewrite fold_join_prefix. reflexivity.
+Qed.
+Lemma string_join_cons : forall s r sep, r <> [] -> string_join (s :: r) sep = s ++ sep ++ string_join r sep.
+Proof. intros s r sep H. destruct r; [contradiction|reflexivity]. Qed.
+Lemma string_join_app : forall l1 l2 sep, l1 <> [] -> l2 <> [] ->
+  string_join (l1 ++ l2) sep = string_join l1 sep ++ sep ++ string_join l2 sep.
+Proof.
+  intros l1. induction l1 as [|s r IH]; intros l2 sep H1 H2; [contradiction|].
+  destruct r as [|t r].
+  - cbn [app]. apply string_join_cons. exact H2.
+  - change ((s :: t :: r) ++ l2) with (s :: ((t :: r) ++ l2)).
+    rewrite string_join_cons by discriminate. rewrite (IH l2 sep) by (discriminate || exact H2).
+    rewrite (string_join_cons s (t :: r)) by discriminate. rewrite <- !app_assoc. reflexivity.
+Qed.
+Lemma string_join_empty_sep : forall l, string_join l [] = concat l.
+Proof.
+  induction l as [|s r IH]; [reflexivity|]. destruct r as [|t r].
+  - cbn. rewrite app_nil_r. reflexivity.
+  - rewrite string_join_cons by discriminate. rewrite IH. reflexivity.
+Qed.
+Lemma string_join_length : forall l sep, l <> [] ->
+  (length (string_join l sep) + length sep = length (concat l) + length l * length sep)%nat.
+Proof.
+  induction l as [|s r IH]; intros sep H; [contradiction|]. destruct r as [|t r].
+  - cbn. rewrite app_nil_r. lia.
+  - rewrite string_join_cons by discriminate. cbn [concat length]. rewrite !app_length.
+    specialize (IH sep ltac:(discriminate)). cbn [concat length] in IH. rewrite !app_length in IH. lia.
+Qed.
